@@ -111,6 +111,9 @@ def body(chk, db, cfgname):
                     obj = gctx.key(g.nodes[jj]["obj"]) if g.nodes[jj].get("obj") is not None else None
                     if obj is None or not is_element(obj, shp, fld(DM + "::parts")):
                         partial = "%s is not called on the part visited by the loop (%s)" % (cn_.split("::")[-1], g.s(jj)[:60])
+                    from pv.paths import every_iteration
+                    if every_iteration(g, j, jj) is False:
+                        partial = "%s is skipped for some parts (an `if` / `continue` inside the loop over the parts bypasses it)" % cn_.split("::")[-1]
                     if cn_.endswith("computeUnnormalized"):
                         ph1 = (j, shp, jj)
                     else:
